@@ -145,6 +145,23 @@ theorem c03_determined_by_subspecs (p : Prims) (rec1 rec2 : Rec σ) (t : V) (sc 
     (∀ sub items acc, listLoop rec1 sub sc items acc = listLoop rec2 sub sc items acc) :=
   ⟨dictLoop_congr p t sc h, fun sub => listLoop_congr sub sc h⟩
 
+/-- **Call combines its parts as documented**: `func`, `args`, `kwargs` are evaluated once each, in
+    that order, in argument position (containers rebuilt, T / Spec leaves replaced by their values,
+    callables kept); then the function is called once with the unpacked arguments. -/
+theorem c03_call_combines (p : Prims) (rec : Rec σ) (func args kwargs : Spec) (t : V) (sc : σ) :
+    glomit p rec (.call func args kwargs) t sc =
+      (do let f ← argVal rec t func sc
+          let a ← argVal rec t args sc
+          let kw ← argVal rec t kwargs sc
+          match f, kw with
+          | .fn n k, .dict _ kws =>
+            match starItems [a] with
+            | some as => do
+              let v ← callFn p n k as (strKeyed kws)
+              pure (v, sc)
+            | Option.none => M.fail (match a with | .set .. => "Unsupported" | _ => "TypeError")
+          | _, _ => M.fail "TypeError") := rfl
+
 /-- **Inspect is transparent**: debugging aside, `Inspect(s)` (no callbacks; what it echoes is not
     part of the result) evaluates `s` once, in its own scope, and yields its value or its exception —
     it is `Spec(s)`. -/
